@@ -389,7 +389,7 @@ def r7_product_call(repo: Repo, rep):
     R = rep.rule("R-C17-7", "ProductDomain.__call__ replaces a factor by a Point exactly when every variable of that factor is fixed by the data - for each factor on its own",
                  floor=6, why="fixing both factors in one call must fix both; fixing a part of a factor's variables must leave the factor (partially evaluated) in place")
     from collections import OrderedDict
-    from ..absdom.listeval import Evaluator, Opaque, UNKNOWN
+    from ..absdom.listeval import Evaluator, Obj, Opaque, UNKNOWN
     ci = repo.cls(f"{DOM}.domainoperations.product.ProductDomain")
     fi = ci.methods.get("__call__")
     if fi is None:
@@ -412,12 +412,14 @@ def r7_product_call(repo: Repo, rep):
             return ("Product", a, b)
         if name == "_create_point_data":
             return ["pd"]
-        if name in ("domain_a", "domain_b") and isinstance(e.func, ast.Attribute) and dump(e.func.value) == "self":
+        if name in ("domain_a", "domain_b"):
             return ("Eval", name)
         return None
     for given in ((), ("t",), ("x",), ("x", "y"), ("y", "x", "t"), ("y", "t"), ("t", "x", "y")):
         data = OrderedDict((k, 0.5) for k in given)
-        fr = Evaluator(None, on_call).run(fi.node.body, {"self": Opaque("self"), kw: data}, attrs={"self.domain_a.space": OrderedDict(sa), "self.domain_b.space": OrderedDict(sb)})
+        fr = Evaluator(None, on_call).run(fi.node.body, {"self": Opaque("self"), kw: data},
+                                          attrs={"self.domain_a.space": OrderedDict(sa), "self.domain_b.space": OrderedDict(sb),
+                                                 "self.domain_a": Obj("self.domain_a", {"space": OrderedDict(sa)}), "self.domain_b": Obj("self.domain_b", {"space": OrderedDict(sb)})})
         got = fr.ret
         label = f"data fixes {list(given)}"
         if not (isinstance(got, tuple) and len(got) == 3 and got[0] == "Product"):
